@@ -5478,3 +5478,26 @@ M('C09', 'mpi-zero-written-with-one-octet', 'pgpy/packet/types.py', "int(self).t
 for _p, _t in (('C13', 'C13-ref21'), ('C02', 'C05-ref21'), ('C09', 'C09-ref21'), ('C01', 'C09-ref21'), ('C10', 'C11-ref21'), ('C11', 'C11-ref21'),
                ('C03', 'C03-ref21'), ('C04', 'C04-ref21'), ('C16', 'C16-ref21'), ('C20', 'C20-ref21')):
     TW(_p, 'twin-w7-%s' % _t, _t)
+# ---- wave 7: S2K stream built by private helpers (the unit of the simple form is the bare passphrase: bytes * n is a repetition),
+#      public twin class chosen by an overridden new helper (dispatch spelled out per receiver class by the canonicaliser)
+def _twin_mut(prop, id, twin, rule, swaps, only=None):
+    eds = _twin_edits(twin, only)
+    out = []
+    for f, o, n in eds:
+        for a, b in swaps:
+            n = n.replace(a, b)
+        out.append((f, o, n))
+    assert out != eds, id
+    M(prop, id, out[0][0], out[0][1], out[0][2], rule, more=out[1:])
+
+
+for _p in ('C12', 'C03', 'C04', 'C06'):
+    TW(_p, 'twin-C12-ref20', 'C12-ref20')
+for _p in ('C07', 'C18', 'C08'):
+    TW(_p, 'twin-C07-ref20', 'C07-ref20')
+_twin_mut('C12', 'w7-dk-helpers-preload-after-data', 'C12-ref20', 'C12.1', [("            h.update(b'\\x00' * i)\n            h.update(hashdata)\n", "            h.update(hashdata)\n            h.update(b'\\x00' * i)\n")])
+_twin_mut('C12', 'w7-dk-helpers-one-copy-too-many', 'C12-ref20', 'C12.1', [("        return (block * hcount) + block[:hleft]\n", "        return (block * (hcount + 1)) + block[:hleft]\n")])
+_twin_mut('C12', 'w7-dk-helpers-salt-after-passphrase', 'C12-ref20', 'C12.1', [("            block = bytes(self.salt) + block\n", "            block = block + bytes(self.salt)\n")])
+_twin_mut('C12', 'w7-dk-helpers-contexts-floor', 'C12-ref20', 'C12.2', [("        ctx = -(-keylen // hashlen)\n", "        ctx = keylen // hashlen\n")])
+_twin_mut('C07', 'w7-pubkey-override-keeps-private-subkey', 'C07-ref20', 'C07.1', [("    def _new_public_packet(self):\n        return PubSubKeyV4()\n", "    def _new_public_packet(self):\n        return PrivSubKeyV4()\n")])
+_twin_mut('C18', 'w7-pubkey-override-keeps-private-subkey', 'C07-ref20', 'C18.6', [("    def _new_public_packet(self):\n        return PubSubKeyV4()\n", "    def _new_public_packet(self):\n        return PrivSubKeyV4()\n")])
